@@ -51,10 +51,13 @@ PACKS = {
     # the same (parent, child) key once from a one-way and once from a two-way strategy, in both orders
     "ow2a": dict(ow2="a"),
     "ow2b": dict(ow2="b"),
+    # a strategy with a constructor of its own whose backward map has two preimages (only where asked for: OPT_IN)
+    "fold": dict(fold=True),
 }
+OPT_IN = {"fold"}
 # packs whose point is a statistics mechanism always run with statistics; the cycle symmetry needs three letters
-PACK_STATS = {"trim": "s2", "trimsym": "s2", "rename": "s2", "mono": "s1", "trimonly": "s2", "trimrename": "s2", "hidden": "s1"}
-PACK_EXTRA_PATTERNS = {"trim": [("ba",), ("aa", "ab"), ("ab",)], "trimsym": [("ba",)], "mono": [("ba",)],
+PACK_STATS = {"fold": "s0", "trim": "s2", "trimsym": "s2", "rename": "s2", "mono": "s1", "trimonly": "s2", "trimrename": "s2", "hidden": "s1"}
+PACK_EXTRA_PATTERNS = {"fold": [("aa", "bb"), ("ab", "ba"), ("aba", "bab"), ("aab", "bba")], "trim": [("ba",), ("aa", "ab"), ("ab",)], "trimsym": [("ba",)], "mono": [("ba",)],
                        "trimonly": [("aa", "ab"), ("ba",), ("ab", "bb")], "trimrename": [("ab", "ba"), ("ba",)]}
 STATS = {
     "s0": (),
@@ -68,7 +71,7 @@ SCHEDULES = {"one": (0,), "three": (2,), "all": (10000,), "mixed": (0, 1, 4, 0, 
 
 def configs(tier: str, seed: int, flavours=("default", "forget", "forest"), packs=None, stats=("s0",), max_n=None) -> List[tuple]:
     rnd = random.Random(seed + 101)
-    packs = packs or list(PACKS)
+    packs = packs or [p for p in PACKS if p not in OPT_IN]
     out = []
     pats_ab = PATTERN_SETS_AB if tier == "thorough" else PATTERN_SETS_AB[:9]
     if tier == "thorough":
@@ -112,7 +115,7 @@ def configs(tier: str, seed: int, flavours=("default", "forget", "forest"), pack
     if max_n:
         # configurations that must not be sampled away: the packs that exist for one specific mechanism
         special = [c for c in out if c[4] in ("lazy", "needrev", "oneway", "onewaysym", "pfactory", "split", "trim", "trimsym", "rename",
-                                              "mono", "fac2", "symcycle", "trimonly", "trimrename", "hidden", "pfactory2", "noinf", "redpar", "lookahead", "ow2a", "ow2b")]
+                                              "mono", "fac2", "symcycle", "trimonly", "trimrename", "hidden", "pfactory2", "noinf", "redpar", "lookahead", "ow2a", "ow2b", "fold")]
         keep = []
         seen = set()
         for c in special:
